@@ -594,6 +594,7 @@ stream_blocks(decoder_t *d, int16 *aud, size_t len)
     return 0;
 }
 
+static int BIGPROBE; /* --bigprobe 1: the second probe order ends with the whole recording streamed in two calls */
 static char REF_STREAM[DIGN], REF_BATCH[DIGN], REF_SHORT[DIGN];
 static char REF2_STREAM[DIGN], REF2_BATCH[DIGN]; /* --two 2: the differently configured neighbour, alone */
 /* The probe comes in two orders, because whatever runs first meets the state the history left and overwrites it for
@@ -675,6 +676,8 @@ probe_short(decoder_t *d, char *out, size_t n, int setgram)
         l += snprintf(out + l, n - l, " || cmn: %s", rep ? rep : "NULL");
     /* the whole recording streamed in TWO calls, a short one and a very long one (more frames than any of the decoder's rings holds
      * on a fresh decoder), normalisation fixed */
+    if (!BIGPROBE)
+        return 0;
     if (decoder_set_cmn(d, CMN_FIXED) < 0 || decoder_start_utt(d) < 0 || decoder_process_int16(d, AUD_ALL, 2048, 0, 0) < 0
         || decoder_process_int16(d, AUD_ALL + 2048, N_ALL - 2048, 0, 0) < 0 || decoder_end_utt(d) < 0)
         return -14;
@@ -1057,6 +1060,7 @@ main(int argc, char **argv)
     NOGRAM = atoi(mc_arg(argc, argv, "--nogram", "0"));
     CFGOPTS = mc_arg(argc, argv, "--cfg", "");
     DICTCASE = strstr(CFGOPTS, "dictcase=yes") != NULL;
+    BIGPROBE = atoi(mc_arg(argc, argv, "--bigprobe", "0"));
     if (strcmp(set, "proto") == 0)
         SET_N = N_PROTO;
     else if (strcmp(set, "core") == 0)
@@ -1077,8 +1081,9 @@ main(int argc, char **argv)
             SETMAP[i] = ops[i];
     } else if (strcmp(set, "batchstream") == 0) {
         /* whole-utterance and streaming calls of the whole recording mixed on one decoder (what one call sizes, the next inherits) */
-        static const int ops[] = { OP_START, OP_PROC_ALL_FULL, OP_PROC_ALL, OP_PROC_A, OP_END, OP_HYP, OP_SETCMN };
-        SET_N = (int)(sizeof ops / sizeof *ops);
+        static const int ops[] = { OP_START, OP_PROC_ALL_FULL, OP_PROC_ALL, OP_END, OP_SETCMN, OP_PROC_A, OP_HYP };
+        int small = strcmp(mc_arg(argc, argv, "--batchstream-ops", "7"), "5") == 0;
+        SET_N = small ? 5 : (int)(sizeof ops / sizeof *ops);
         for (i = 0; i < SET_N; i++)
             SETMAP[i] = ops[i];
     } else if (strcmp(set, "boot") == 0) {
